@@ -21,8 +21,13 @@ Theorem C11_no_boundary_shift : forall a b : list fld,
 Proof. exact no_boundary_shift. Qed.
 Print Assumptions C11_no_boundary_shift.
 
-(** C11-F4: outside that guard writes can be shifted against each other *)
-Theorem C11_F4_refuted : exists a b, guard_shift a b = true /\ cat a = cat b /\ a <> b.
+(** the exact guard of C11-F4 — equal pre-images of different writes — can only fire inside that structural condition *)
+Theorem C11_collision_needs_shift : forall a b : list fld, collide a b = true -> guard_shift a b = true.
+Proof. exact collide_needs_shift. Qed.
+Print Assumptions C11_collision_needs_shift.
+
+(** C11-F4: writes can be shifted against each other *)
+Theorem C11_F4_refuted : exists a b, collide a b = true /\ cat a = cat b /\ a <> b.
 Proof. exact F4_refuted. Qed.
 Print Assumptions C11_F4_refuted.
 
@@ -208,32 +213,34 @@ Theorem C11_F5_refuted :
 Proof. exact F5_refuted. Qed.
 Print Assumptions C11_F5_refuted.
 
-(** RFC 7234 cache of an endpoint: outside the guards of C11-F8 (requests that
-    differ in a header the server lists in Vary) and C11-F9 (POST requests with
-    different bodies) every response served from the cache is the one a fresh
-    request would get *)
-Theorem C11_hc_cache_transparent : forall fx8 H c h,
-  g_F8 fx8 c h = false -> g_F9 fx8 c h = false ->
-  map sr_out (hc_run fx8 H c [] h) = map (fun x => OAllow (hc_result c x)) h.
+(** RFC 7234 cache (endpoint option http_cache): for every history of requests to any
+    endpoints (url, method, Authorization) outside the guards of C11-F4 (url | method |
+    Authorization shifted), C11-F8 (requests that differ in a header the server lists
+    in Vary) and C11-F9 (POST requests with different bodies) every response served from
+    the cache is the one a fresh request would get *)
+Theorem C11_hc_cache_transparent : forall fx8 H w h,
+  (forall x y, H x = H y -> x = y) -> g_hc_F4 h = false -> g_F8 fx8 w h = false -> g_F9 fx8 w h = false ->
+  map sr_out (hc_run fx8 H w [] h) = map (fun x => OAllow (hc_result w (fst x) (snd x))) h.
 Proof. exact hc_cache_transparent. Qed.
 Print Assumptions C11_hc_cache_transparent.
 
-(** with fixes/C11-F8.diff (no response with Vary or to a non-GET/HEAD request is stored,
-    only GET/HEAD requests are looked up) the RFC 7234 cache is transparent on EVERY history *)
-Theorem C11_hc_cache_transparent_repaired : forall H c h,
-  map sr_out (hc_run true H c [] h) = map (fun x => OAllow (hc_result c x)) h.
+(** the code since 12fdf68 (only GET/HEAD looked up and stored, no response with Vary stored):
+    the guards of F8 and F9 are not needed *)
+Theorem C11_hc_cache_transparent_repaired : forall H w h,
+  (forall x y, H x = H y -> x = y) -> g_hc_F4 h = false ->
+  map sr_out (hc_run true H w [] h) = map (fun x => OAllow (hc_result w (fst x) (snd x))) h.
 Proof. exact hc_cache_transparent_repaired. Qed.
 Print Assumptions C11_hc_cache_transparent_repaired.
 
 Theorem C11_F8_refuted :
-  exists c a b, g_F8 false c [a; b] = true /\
-    forall H, map sr_out (hc_run false H c [] [a; b]) <> map (fun x => OAllow (hc_result c x)) [a; b].
+  exists w a b, g_F8 false w [a; b] = true /\
+    forall H, map sr_out (hc_run false H w [] [a; b]) <> map (fun x => OAllow (hc_result w (fst x) (snd x))) [a; b].
 Proof. exact F8_refuted. Qed.
 Print Assumptions C11_F8_refuted.
 
 Theorem C11_F9_refuted :
-  exists c a b, g_F9 false c [a; b] = true /\ g_F8 false c [a; b] = false /\
-    forall H, map sr_out (hc_run false H c [] [a; b]) <> map (fun x => OAllow (hc_result c x)) [a; b].
+  exists w a b, g_F9 false w [a; b] = true /\ g_F8 false w [a; b] = false /\
+    forall H, map sr_out (hc_run false H w [] [a; b]) <> map (fun x => OAllow (hc_result w (fst x) (snd x))) [a; b].
 Proof. exact F9_refuted. Qed.
 Print Assumptions C11_F9_refuted.
 
